@@ -1,6 +1,732 @@
-(* FrontProofs.v — proofs about Front.v (C16). *)
-From Coq Require Import ZArith List Bool String Lia Permutation.
+(* FrontProofs.v — proofs about Front.v (C16): both front ends implement the meaning [spec_device] of an abstract
+   definition, for every structural spelling; hence they agree with each other. *)
+From Coq Require Import ZArith List Bool String Ascii Lia Permutation.
 From DD Require Import Common Mir GenErr Front.
 Import ListNotations.
 Open Scope string_scope.
 Open Scope Z_scope.
+
+(* ------------------------------------------------------------------ monad / list plumbing *)
+
+Lemma mapR_mapM : forall {A B} (f : A -> result B) l, mapR f l = mapM f l.
+Proof. induction l as [|a t IH]; cbn; [reflexivity|]. rewrite IH. reflexivity. Qed.
+
+Lemma mapR_map : forall {A B C} (f : B -> result C) (g : A -> B) l, mapR f (map g l) = mapR (fun x => f (g x)) l.
+Proof. induction l as [|a t IH]; cbn; [reflexivity|]. rewrite IH. reflexivity. Qed.
+
+Lemma mapR_ok : forall {A B} (f : A -> result B) (h : A -> B) l,
+  Forall (fun x => f x = ROk (h x)) l -> mapR f l = ROk (map h l).
+Proof.
+  induction l as [|a t IH]; intros H; cbn; [reflexivity|].
+  inversion H; subst. rewrite H2. cbn. rewrite (IH H3). reflexivity.
+Qed.
+
+Lemma class_of_ok : forall {A} (r : result A) a, class_of r = ROk a -> r = ROk a.
+Proof. intros A [x|e] a H; cbn in H; congruence. Qed.
+
+Lemma class_of_idem : forall e, err_class (err_class e) = err_class e.
+Proof.
+  intros [k args]. unfold err_class. cbn [e_kind e_args].
+  destruct (k =s "dsl_missing") eqn:E1.
+  { destruct args as [|a [|b [|c [|? ?]]]]; cbn; try rewrite E1; reflexivity. }
+  destruct (k =s "manifest_missing") eqn:E2; [reflexivity|].
+  destruct ((k =s "dsl_ref_buffer") || (k =s "manifest_ref_buffer")) eqn:E3; [reflexivity|].
+  destruct ((k =s "dsl_ref_ref") || (k =s "manifest_ref_ref")) eqn:E4; [reflexivity|].
+  destruct ((k =s "dsl_override_forbidden") || (k =s "manifest_override_unexpected_key")) eqn:E5; [reflexivity|].
+  cbn [e_kind e_args]. rewrite E1, E2, E3, E4, E5. reflexivity.
+Qed.
+
+Lemma class_of_class_of : forall {A} (r : result A), class_of (class_of r) = class_of r.
+Proof. intros A [a|e]; cbn; [reflexivity|]. rewrite class_of_idem. reflexivity. Qed.
+
+(* congruence of the comparison under bind and mapR *)
+Lemma class_rbind : forall {A B} (x y : result A) (f g : A -> result B),
+  class_of x = class_of y -> (forall a, class_of (f a) = class_of (g a)) ->
+  class_of (rbind x f) = class_of (rbind y g).
+Proof.
+  intros A B [a|e] [b|e'] f g H Hf; cbn in *; try discriminate.
+  - inversion H; subst. apply Hf.
+  - inversion H. reflexivity.
+Qed.
+
+Lemma class_mapR : forall {A B} (f s : A -> result B) l,
+  Forall (fun x => class_of (f x) = class_of (s x)) l -> class_of (mapR f l) = class_of (mapR s l).
+Proof.
+  induction l as [|a t IH]; intros H; [reflexivity|].
+  inversion H; subst. cbn [mapR].
+  change (class_of (rbind (f a) (fun b => rbind (mapR f t) (fun bs => ROk (b :: bs)))) =
+          class_of (rbind (s a) (fun b => rbind (mapR s t) (fun bs => ROk (b :: bs))))).
+  apply class_rbind; [assumption|]. intros b.
+  apply class_rbind; [apply IH; assumption|]. reflexivity.
+Qed.
+
+Lemma foldM_app : forall {A B} (f : A -> B -> result B) l1 l2 b,
+  foldM f (l1 ++ l2) b = rbind (foldM f l1 b) (fun b' => foldM f l2 b').
+Proof.
+  induction l1 as [|a t IH]; intros l2 b; cbn; [reflexivity|].
+  destruct (f a b); cbn; [apply IH | reflexivity].
+Qed.
+
+(* ------------------------------------------------------------------ find_map *)
+
+Lemma find_map_app : forall {A B} (p : A -> option B) l1 l2,
+  find_map p (l1 ++ l2) = match find_map p l1 with Some b => Some b | None => find_map p l2 end.
+Proof. induction l1 as [|a t IH]; intros; cbn; [reflexivity|]. destruct (p a); [reflexivity|apply IH]. Qed.
+
+Lemma find_map_none : forall {A B} (p : A -> option B) l,
+  find_map p l = None <-> Forall (fun i => p i = None) l.
+Proof.
+  induction l as [|a t IH]; cbn; [split; auto|].
+  destruct (p a) eqn:E; split; intros H.
+  - discriminate.
+  - inversion H; congruence.
+  - constructor; [first [assumption|reflexivity]|apply IH; assumption].
+  - inversion H; subst. apply IH; assumption.
+Qed.
+
+Lemma find_map_some_in : forall {A B} (p : A -> option B) l v,
+  find_map p l = Some v -> exists i, In i l /\ p i = Some v.
+Proof.
+  induction l as [|a t IH]; cbn; intros v H; [discriminate|].
+  destruct (p a) eqn:E.
+  - inversion H; subst. exists a; auto.
+  - destruct (IH v H) as [i [Hi Hp]]. exists i; auto.
+Qed.
+
+(* if every hit is the same element, find_map returns that element's value *)
+Lemma find_map_unique : forall {A B} (p : A -> option B) l i,
+  In i l -> (forall j, In j l -> p j <> None -> j = i) -> find_map p l = p i.
+Proof.
+  induction l as [|a t IH]; intros i Hin Hu; [destruct Hin|].
+  cbn. destruct (p a) eqn:E.
+  - assert (a = i) by (apply Hu; [left; reflexivity|congruence]). subst. symmetry; assumption.
+  - destruct Hin as [->|Hin].
+    + rewrite E. apply find_map_none. rewrite Forall_forall. intros x Hx.
+      destruct (p x) eqn:Ex; [exfalso|reflexivity].
+      assert (x = i) by (apply Hu; [right; assumption|congruence]). subst. congruence.
+    + apply IH; [assumption|]. intros j Hj Hp. apply Hu; [right; assumption|assumption].
+Qed.
+
+(* permutation invariance when all hits have one kind and kinds do not repeat *)
+Lemma NoDup_map_inj : forall {A} (kind : A -> nat) l i j,
+  NoDup (map kind l) -> In i l -> In j l -> kind i = kind j -> i = j.
+Proof.
+  induction l as [|a t IH]; intros i j Hnd Hi Hj Hk; [destruct Hi|].
+  cbn in Hnd. inversion Hnd; subst.
+  destruct Hi as [->|Hi], Hj as [->|Hj]; auto.
+  - exfalso. apply H1. rewrite Hk. apply in_map; assumption.
+  - exfalso. apply H1. rewrite <- Hk. apply in_map; assumption.
+Qed.
+
+Lemma find_map_perm : forall {A B} (kind : A -> nat) (p : A -> option B) (k : nat) l l',
+  NoDup (map kind l) -> (forall i, p i <> None -> kind i = k) -> Permutation l l' ->
+  find_map p l' = find_map p l.
+Proof.
+  intros A B kind p k l l' Hnd Hk Hperm.
+  destruct (find_map p l) eqn:E.
+  - destruct (find_map_some_in _ _ _ E) as [i [Hi Hp]].
+    rewrite <- Hp. apply find_map_unique.
+    + eapply Permutation_in; eassumption.
+    + intros j Hj Hpj. apply (NoDup_map_inj kind l); try assumption.
+      * eapply Permutation_in; [apply Permutation_sym; eassumption|assumption].
+      * rewrite (Hk j Hpj). symmetry. apply Hk. congruence.
+  - apply find_map_none. apply find_map_none in E.
+    rewrite Forall_forall in *. intros x Hx. apply E.
+    eapply Permutation_in; [apply Permutation_sym; eassumption|assumption].
+Qed.
+
+Lemma find_map_perm_none : forall {A B} (p : A -> option B) l l',
+  Permutation l l' -> find_map p l = None -> find_map p l' = None.
+Proof.
+  intros A B p l l' Hperm E. apply find_map_none. apply find_map_none in E.
+  rewrite Forall_forall in *. intros x Hx. apply E.
+  eapply Permutation_in; [apply Permutation_sym; eassumption|assumption].
+Qed.
+
+(* ------------------------------------------------------------------ reorder is a permutation *)
+
+Lemma insert_by_perm : forall {A} k (a : A) l, Permutation ((k, a) :: l) (insert_by k a l).
+Proof.
+  induction l as [|[k' b] t IH]; cbn; [apply Permutation_refl|].
+  destruct (Nat.leb k k'); [apply Permutation_refl|].
+  eapply Permutation_trans; [apply perm_swap|]. apply perm_skip. exact IH.
+Qed.
+
+Lemma isort_perm : forall {A} (l : list (nat * A)), Permutation l (isort l).
+Proof.
+  induction l as [|[k a] t IH]; cbn; [apply Permutation_refl|].
+  eapply Permutation_trans; [|apply insert_by_perm]. apply perm_skip. exact IH.
+Qed.
+
+Lemma zip_keys_snd : forall {A} keys (l : list A), map snd (zip_keys keys l) = l.
+Proof.
+  intros A keys l; revert keys. induction l as [|a t IH]; intros keys; cbn; [reflexivity|].
+  destruct keys; cbn; rewrite IH; reflexivity.
+Qed.
+
+Lemma reorder_perm : forall {A} keys (l : list A), Permutation l (reorder keys l).
+Proof.
+  intros. unfold reorder. rewrite <- (zip_keys_snd keys l) at 1.
+  apply Permutation_map. apply isort_perm.
+Qed.
+
+(* boolean no-duplicates on nat lists *)
+Fixpoint nodupb (l : list nat) : bool :=
+  match l with [] => true | a :: t => negb (existsb (Nat.eqb a) t) && nodupb t end.
+
+Lemma nodupb_sound : forall l, nodupb l = true -> NoDup l.
+Proof.
+  induction l as [|a t IH]; cbn; intros H; [constructor|].
+  apply andb_prop in H. destruct H as [H1 H2]. constructor; [|apply IH; assumption].
+  intros Hin. apply negb_true_iff in H1.
+  assert (existsb (Nat.eqb a) t = true) by (apply existsb_exists; exists a; split; [assumption|apply Nat.eqb_refl]).
+  congruence.
+Qed.
+
+Lemma find_map_reorder : forall {A B} (kind : A -> nat) (p : A -> option B) (k : nat) keys l,
+  nodupb (map kind l) = true -> (forall i, p i <> None -> kind i = k) ->
+  find_map p (reorder keys l) = find_map p l.
+Proof.
+  intros. eapply find_map_perm; [apply nodupb_sound; eassumption|eassumption|apply reorder_perm].
+Qed.
+
+(* ================================================================== the DSL half *)
+
+Lemma parse_lit_ok : forall ok z, ok z = true -> parse_lit ok z = ROk z.
+Proof. intros ok z H. unfold parse_lit. rewrite H. reflexivity. Qed.
+
+Lemma get_cfg_opt : forall c, get_cfg_attr (opt_item ACfg c) = ROk c.
+Proof. intros [c|]; reflexivity. Qed.
+
+Lemma get_cfg_head : forall h, get_cfg_attr (attrs_of h) = ROk (h_cfg h).
+Proof. intros [[c|] [|] n]; reflexivity. Qed.
+
+Lemma dsl_repeat_ok : forall r, repeat_ok r = true -> dsl_repeat r = ROk r.
+Proof.
+  intros [c s] H. unfold repeat_ok in H. cbn in H. apply andb_prop in H. destruct H as [H1 H2].
+  unfold dsl_repeat. cbn [r_count r_stride]. rewrite (parse_lit_ok _ _ H1), (parse_lit_ok _ _ H2). reflexivity.
+Qed.
+
+Lemma dsl_opt_repeat_ok : forall r, opt_ok repeat_ok r = true -> transpose (option_map dsl_repeat r) = ROk r.
+Proof. intros [r|] H; cbn in *; [rewrite (dsl_repeat_ok _ H)|]; reflexivity. Qed.
+
+Lemma dsl_opt_i64_ok : forall z, opt_ok in_i64 z = true -> transpose (option_map (parse_lit in_i64) z) = ROk z.
+Proof. intros [z|] H; cbn in *; [rewrite (parse_lit_ok _ _ H)|]; reflexivity. Qed.
+
+Lemma in_i64_i128 : forall z, in_i64 z = true -> in_i128 z = true.
+Proof.
+  intros z H. unfold in_i64, in_i128 in *. apply andb_prop in H. destruct H as [H1 H2].
+  apply Z.leb_le in H1. apply Z.ltb_lt in H2. apply andb_true_intro. split; [apply Z.leb_le|apply Z.ltb_lt]; lia.
+Qed.
+
+Lemma dsl_variant_ok : forall v, variant_ok v = true -> dsl_variant (variant_to_dsl v) = ROk (spec_variant v).
+Proof.
+  intros [c n val mf ov] H. unfold variant_ok in H. cbn in H.
+  apply andb_prop in H. destruct H as [_ H].
+  unfold dsl_variant, variant_to_dsl, spec_variant. cbn [hv_attrs hv_name hv_value av_cfg av_name av_value].
+  rewrite get_cfg_opt. cbn [rbind].
+  destruct val as [|z| |]; cbn; try reflexivity.
+  rewrite (parse_lit_ok _ _ (in_i64_i128 _ H)). reflexivity.
+Qed.
+
+Lemma dsl_conv_ok : forall c, conv_ok c = true -> dsl_conv (conv_to_dsl c) = ROk (spec_conv c).
+Proof.
+  intros [[n|n vs] t] H; unfold conv_to_dsl, spec_conv; cbn [fst snd dsl_conv]; [reflexivity|].
+  unfold conv_ok in H. cbn in H.
+  rewrite <- mapR_mapM, mapR_map, (mapR_ok _ spec_variant).
+  - reflexivity.
+  - rewrite Forall_forall. intros v Hv. apply dsl_variant_ok.
+    rewrite forallb_forall in H. apply H; assumption.
+Qed.
+
+Lemma dsl_field_ok : forall g f,
+  field_ok f = true -> field_single_nonbool f = false -> dsl_field g (field_to_dsl f) = ROk (spec_field g f).
+Proof.
+  intros g [c n acc base conv s e incl] H Hs.
+  unfold field_ok in H. cbn in H. apply andb_prop in H. destruct H as [H Hc].
+  apply andb_prop in H. destruct H as [Hst He].
+  unfold field_single_nonbool in Hs. cbn in Hs.
+  unfold dsl_field, field_to_dsl, spec_field.
+  cbn [hf_attrs hf_name hf_access hf_base hf_conv hf_addr af_cfg af_name af_access af_base af_conv af_start af_end af_incl].
+  rewrite get_cfg_opt. cbn [rbind].
+  assert (Hconv : transpose (option_map dsl_conv (option_map conv_to_dsl conv)) = ROk (option_map spec_conv conv)).
+  { destruct conv as [cv|]; cbn in *; [rewrite (dsl_conv_ok _ Hc)|]; reflexivity. }
+  rewrite Hconv. cbn [rbind].
+  destruct e as [e|]; cbn [or_default].
+  - cbn in He.
+    destruct (incl && (1 <=? e)) eqn:Ei; cbn [dsl_field_address].
+    + apply andb_prop in Ei. destruct Ei as [_ Ei]. apply Z.leb_le in Ei.
+      assert (He1 : in_u32 (e - 1) = true).
+      { unfold in_u32 in *. apply andb_prop in He. destruct He as [A B]. apply Z.leb_le in A. apply Z.ltb_lt in B.
+        apply andb_true_intro. split; [apply Z.leb_le|apply Z.ltb_lt]; lia. }
+      rewrite (parse_lit_ok _ _ Hst), (parse_lit_ok _ _ He1). cbn [rbind].
+      assert (Hne : (e - 1 =? 2 ^ 32 - 1) = false).
+      { apply Z.eqb_neq. unfold in_u32 in He. apply andb_prop in He. destruct He as [_ B]. apply Z.ltb_lt in B. lia. }
+      rewrite Hne. cbn [fst snd]. replace (e - 1 + 1) with e by lia. reflexivity.
+    + rewrite (parse_lit_ok _ _ Hst), (parse_lit_ok _ _ He). reflexivity.
+  - cbn [dsl_field_address]. cbn in Hs.
+    destruct (is_bool_base base); [|discriminate].
+    rewrite (parse_lit_ok _ _ Hst). reflexivity.
+Qed.
+
+Lemma dsl_fields_ok : forall g fs,
+  fields_ok fs = true -> mapM (dsl_field g) (map field_to_dsl fs) = ROk (map (spec_field g) fs).
+Proof.
+  intros g fs H. rewrite <- mapR_mapM, mapR_map. apply mapR_ok.
+  rewrite Forall_forall. intros f Hf. unfold fields_ok in H. rewrite forallb_forall in H.
+  specialize (H f Hf). apply andb_prop in H. destruct H as [H1 H2]. apply negb_true_iff in H2.
+  apply dsl_field_ok; assumption.
+Qed.
+
+(* ---- item kinds: the parser's `discriminant` (the two reset forms share one slot) ---- *)
+
+Definition rkind (i : register_item) : nat :=
+  match i with
+  | RIAccess _ => 0 | RIByteOrder _ => 1 | RIBitOrder _ => 2 | RIAddress _ => 3 | RISizeBits _ => 4
+  | RIResetInt _ => 5 | RIResetArr _ => 5 | RIRepeat _ => 6 | RIAllowBitOverlap _ => 7
+  | RIAllowAddressOverlap _ => 8
+  end%nat.
+
+Definition ckind (i : command_item) : nat :=
+  match i with
+  | CIByteOrder _ => 0 | CIBitOrder _ => 1 | CIAddress _ => 2 | CISizeBitsIn _ => 3 | CISizeBitsOut _ => 4
+  | CIRepeat _ => 5 | CIAllowBitOverlap _ => 6 | CIAllowAddressOverlap _ => 7
+  end%nat.
+
+Definition bkind (i : block_item) : nat := match i with BIAddressOffset _ => 0 | BIRepeat _ => 1 end%nat.
+
+Lemma register_items_nodup : forall r, nodupb (map rkind (register_items r)) = true.
+Proof.
+  intros [a b c d e f g h i fs ord]. unfold register_items.
+  cbn [ar_access ar_byte_order ar_bit_order ar_address ar_size_bits ar_reset ar_repeat ar_allow_bit_overlap
+       ar_allow_address_overlap].
+  destruct a, b, c, d, e, f as [[?|?]|], g, h, i; reflexivity.
+Qed.
+
+Lemma command_items_nodup : forall c, nodupb (map ckind (command_items c)) = true.
+Proof.
+  intros [a b c d e f g h fi fo ord ba br]. unfold command_items.
+  cbn [ak_byte_order ak_bit_order ak_address ak_size_in ak_size_out ak_repeat ak_allow_bit_overlap
+       ak_allow_address_overlap].
+  destruct a, b, c, d, e, f, g, h; reflexivity.
+Qed.
+
+Lemma block_items_nodup : forall off rep, nodupb (map bkind (block_items off rep)) = true.
+Proof. intros [?|] [?|]; reflexivity. Qed.
+
+(* what the pickers find in the canonical item list *)
+Definition reset_pick (r : reset_value) : result reset_value :=
+  match r with RInt z => dsl_reset_int z | RArr l => ROk (RArr l) end.
+
+Lemma register_picks : forall r,
+  let l := register_items r in
+  find_map pick_r_access l = ar_access r /\ find_map pick_r_byte_order l = ar_byte_order r /\
+  find_map pick_r_bit_order l = ar_bit_order r /\ find_map pick_r_address l = ar_address r /\
+  find_map pick_r_size l = ar_size_bits r /\ find_map pick_r_reset l = option_map reset_pick (ar_reset r) /\
+  find_map pick_r_repeat l = ar_repeat r /\ find_map pick_r_allow_bit l = ar_allow_bit_overlap r /\
+  find_map pick_r_allow_addr l = ar_allow_address_overlap r.
+Proof.
+  intros [a b c d e f g h i fs ord]. unfold register_items.
+  cbn [ar_access ar_byte_order ar_bit_order ar_address ar_size_bits ar_reset ar_repeat ar_allow_bit_overlap
+       ar_allow_address_overlap].
+  destruct a, b, c, d, e, f as [[?|?]|], g, h, i; cbn; repeat split; reflexivity.
+Qed.
+
+Lemma command_picks : forall c,
+  let l := command_items c in
+  find_map pick_c_byte_order l = ak_byte_order c /\ find_map pick_c_bit_order l = ak_bit_order c /\
+  find_map pick_c_address l = ak_address c /\ find_map pick_c_size_in l = ak_size_in c /\
+  find_map pick_c_size_out l = ak_size_out c /\ find_map pick_c_repeat l = ak_repeat c /\
+  find_map pick_c_allow_bit l = ak_allow_bit_overlap c /\
+  find_map pick_c_allow_addr l = ak_allow_address_overlap c.
+Proof.
+  intros [a b c d e f g h fi fo ord ba br]. unfold command_items.
+  cbn [ak_byte_order ak_bit_order ak_address ak_size_in ak_size_out ak_repeat ak_allow_bit_overlap
+       ak_allow_address_overlap].
+  destruct a, b, c, d, e, f, g, h; cbn; repeat split; reflexivity.
+Qed.
+
+Ltac kind_side := let i := fresh in let H := fresh in
+  intros i H; destruct i; try reflexivity; exfalso; apply H; reflexivity.
+
+Ltac reorder_r r :=
+  rewrite ?(find_map_reorder rkind pick_r_access 0%nat _ _ (register_items_nodup r)) by kind_side;
+  rewrite ?(find_map_reorder rkind pick_r_byte_order 1%nat _ _ (register_items_nodup r)) by kind_side;
+  rewrite ?(find_map_reorder rkind pick_r_bit_order 2%nat _ _ (register_items_nodup r)) by kind_side;
+  rewrite ?(find_map_reorder rkind pick_r_address 3%nat _ _ (register_items_nodup r)) by kind_side;
+  rewrite ?(find_map_reorder rkind pick_r_size 4%nat _ _ (register_items_nodup r)) by kind_side;
+  rewrite ?(find_map_reorder rkind pick_r_reset 5%nat _ _ (register_items_nodup r)) by kind_side;
+  rewrite ?(find_map_reorder rkind pick_r_repeat 6%nat _ _ (register_items_nodup r)) by kind_side;
+  rewrite ?(find_map_reorder rkind pick_r_allow_bit 7%nat _ _ (register_items_nodup r)) by kind_side;
+  rewrite ?(find_map_reorder rkind pick_r_allow_addr 8%nat _ _ (register_items_nodup r)) by kind_side.
+
+Ltac reorder_c c :=
+  rewrite ?(find_map_reorder ckind pick_c_byte_order 0%nat _ _ (command_items_nodup c)) by kind_side;
+  rewrite ?(find_map_reorder ckind pick_c_bit_order 1%nat _ _ (command_items_nodup c)) by kind_side;
+  rewrite ?(find_map_reorder ckind pick_c_address 2%nat _ _ (command_items_nodup c)) by kind_side;
+  rewrite ?(find_map_reorder ckind pick_c_size_in 3%nat _ _ (command_items_nodup c)) by kind_side;
+  rewrite ?(find_map_reorder ckind pick_c_size_out 4%nat _ _ (command_items_nodup c)) by kind_side;
+  rewrite ?(find_map_reorder ckind pick_c_repeat 5%nat _ _ (command_items_nodup c)) by kind_side;
+  rewrite ?(find_map_reorder ckind pick_c_allow_bit 6%nat _ _ (command_items_nodup c)) by kind_side;
+  rewrite ?(find_map_reorder ckind pick_c_allow_addr 7%nat _ _ (command_items_nodup c)) by kind_side.
+
+Lemma in_u64_i128 : forall z, in_u64 z = true -> in_i128 z = true.
+Proof.
+  intros z H. unfold in_u64, in_i128 in *. apply andb_prop in H. destruct H as [H1 H2].
+  apply Z.leb_le in H1. apply Z.ltb_lt in H2. apply andb_true_intro. split; [apply Z.leb_le|apply Z.ltb_lt]; lia.
+Qed.
+
+Lemma reset_pick_ok : forall r, opt_ok reset_ok r = true -> transpose (option_map reset_pick r) = ROk r.
+Proof.
+  intros [[z|l]|] H; cbn in *; try reflexivity.
+  unfold dsl_reset_int. rewrite (in_u64_i128 _ H). cbn.
+  unfold in_u64 in H. apply andb_prop in H. destruct H as [H1 H2]. apply Z.leb_le in H1. apply Z.ltb_lt in H2.
+  rewrite Z.mod_small; [reflexivity|]. split; [assumption|]. eapply Z.lt_trans; [eassumption|reflexivity].
+Qed.
+
+(* ---- register ---- *)
+
+Lemma dsl_register_spec : forall g h r,
+  register_ok r = true ->
+  class_of (dsl_register g (attrs_of h) (h_name h) (reorder (ar_order r) (register_items r))
+                         (map field_to_dsl (ar_fields r)))
+  = class_of (spec_register g h r).
+Proof.
+  intros g h r Hok.
+  unfold register_ok in Hok. repeat (apply andb_prop in Hok; destruct Hok as [Hok ?]).
+  unfold dsl_register. rewrite get_cfg_head. cbn [rbind].
+  reorder_r r.
+  destruct (register_picks r) as (P1 & P2 & P3 & P4 & P5 & P6 & P7 & P8 & P9).
+  rewrite P1, P2, P3, P4, P5, P6, P7, P8, P9.
+  unfold spec_register.
+  destruct (ar_address r) as [a|]; [|reflexivity].
+  cbn in Hok. rewrite (parse_lit_ok _ _ Hok). cbn [rbind].
+  destruct (ar_size_bits r) as [s|]; [|reflexivity].
+  match goal with H : opt_ok in_u32 (Some s) = true |- _ => cbn in H; rewrite (parse_lit_ok _ _ H) end. cbn [rbind].
+  rewrite reset_pick_ok by assumption. cbn [rbind].
+  rewrite dsl_opt_repeat_ok by assumption. cbn [rbind].
+  rewrite dsl_fields_ok by assumption. reflexivity.
+Qed.
+
+(* ---- command ---- *)
+
+Lemma dsl_command_ext_spec : forall g h c,
+  command_ok c = true ->
+  class_of (dsl_command g (attrs_of h) (h_name h)
+              (Some (CVExtended (reorder (ak_order c) (command_items c))
+                                (option_map (map field_to_dsl) (ak_fields_in c))
+                                (option_map (map field_to_dsl) (ak_fields_out c)))))
+  = class_of (spec_command g h c).
+Proof.
+  intros g h c Hok.
+  unfold command_ok in Hok. repeat (apply andb_prop in Hok; destruct Hok as [Hok ?]).
+  unfold dsl_command. rewrite get_cfg_head. cbn [rbind cv_items].
+  reorder_c c.
+  destruct (command_picks c) as (P1 & P2 & P3 & P4 & P5 & P6 & P7 & P8).
+  rewrite P1, P2, P3, P4, P5, P6, P7, P8.
+  unfold spec_command.
+  destruct (ak_address c) as [a|]; [|reflexivity].
+  cbn in Hok. rewrite (parse_lit_ok _ _ Hok). cbn [rbind].
+  assert (Hin : match ak_size_in c with Some z => parse_lit in_u32 z | None => ROk 0 end = ROk (or_default (ak_size_in c) 0)).
+  { destruct (ak_size_in c) as [z|]; [|reflexivity].
+    match goal with H : opt_ok in_u32 (Some z) = true |- _ => cbn in H; rewrite (parse_lit_ok _ _ H) end. reflexivity. }
+  assert (Hout : match ak_size_out c with Some z => parse_lit in_u32 z | None => ROk 0 end = ROk (or_default (ak_size_out c) 0)).
+  { destruct (ak_size_out c) as [z|]; [|reflexivity].
+    match goal with H : opt_ok in_u32 (Some z) = true |- _ => cbn in H; rewrite (parse_lit_ok _ _ H) end. reflexivity. }
+  rewrite Hin, Hout. cbn [rbind].
+  rewrite dsl_opt_repeat_ok by assumption. cbn [rbind].
+  destruct (ak_fields_in c) as [fi|]; cbn [option_map or_default].
+  - match goal with H : opt_ok fields_ok (Some fi) = true |- _ => cbn in H; rewrite (dsl_fields_ok g fi H) end.
+    cbn [rbind].
+    destruct (ak_fields_out c) as [fo|]; cbn [option_map or_default].
+    + match goal with H : opt_ok fields_ok (Some fo) = true |- _ => cbn in H; rewrite (dsl_fields_ok g fo H) end.
+      reflexivity.
+    + reflexivity.
+  - cbn [rbind].
+    destruct (ak_fields_out c) as [fo|]; cbn [option_map or_default].
+    + match goal with H : opt_ok fields_ok (Some fo) = true |- _ => cbn in H; rewrite (dsl_fields_ok g fo H) end.
+      reflexivity.
+    + reflexivity.
+Qed.
+
+Lemma dsl_command_spec : forall g h c,
+  command_ok c = true ->
+  class_of (dsl_command g (attrs_of h) (h_name h) (command_to_dsl false c)) = class_of (spec_command g h c).
+Proof.
+  intros g h c Hok. unfold command_to_dsl. cbn [orb].
+  destruct (negb (command_plain c)) eqn:Ep; [apply dsl_command_ext_spec; assumption|].
+  apply negb_false_iff in Ep.
+  destruct (ak_address c) as [a|] eqn:Ea.
+  - destruct (ak_basic c); [|apply dsl_command_ext_spec; assumption].
+    (* `command X = a` *)
+    unfold command_ok in Hok. repeat (apply andb_prop in Hok; destruct Hok as [Hok ?]).
+    rewrite Ea in Hok. cbn in Hok.
+    unfold dsl_command. rewrite get_cfg_head. cbn [rbind cv_items find_map].
+    rewrite (parse_lit_ok _ _ Hok). cbn [rbind transpose option_map rmap].
+    unfold spec_command. rewrite Ea.
+    destruct c as [a1 a2 a3 a4 a5 a6 a7 a8 fi fo ord ba br]. unfold command_plain in Ep. cbn in *.
+    destruct a1, a2, a4, a5, a6, a7, a8, fi, fo; try discriminate. reflexivity.
+  - destruct (ak_bare c); [|apply dsl_command_ext_spec; assumption].
+    (* `command X` *)
+    unfold dsl_command, spec_command. rewrite Ea. reflexivity.
+Qed.
+
+(* ---- buffer ---- *)
+
+Lemma dsl_buffer_spec : forall g h b,
+  opt_ok in_i64 (ab_address b) = true ->
+  class_of (dsl_buffer g (attrs_of h) (h_name h) (ab_access b) (ab_address b)) = class_of (spec_buffer g h b).
+Proof.
+  intros g h [acc [a|]] H; unfold dsl_buffer, spec_buffer; rewrite get_cfg_head; cbn [rbind ab_address ab_access].
+  - cbn in H. rewrite (parse_lit_ok _ _ H). reflexivity.
+  - reflexivity.
+Qed.
+
+(* ---- ref overrides ---- *)
+
+Definition dsl_ov (name : string) (obj : hobject) : result override :=
+  match obj with
+  | HBlock a n items objs => dsl_block_override a n items objs
+  | HRegister a n items fields => dsl_register_override a n items fields
+  | HCommand a n v => dsl_command_override a n v
+  | HBuffer _ _ _ _ => RErr (mk_err "dsl_ref_buffer" [name])
+  | HRef _ _ _ => RErr (mk_err "dsl_ref_ref" [name])
+  end.
+
+Lemma dsl_object_ref : forall g attrs name obj,
+  dsl_object g (HRef attrs name obj) =
+  rbind (get_cfg_attr attrs) (fun c => rbind (dsl_ov name obj) (fun ov => ROk (ORef c name ov))).
+Proof. intros. destruct obj; reflexivity. Qed.
+
+Lemma no_attrs_head : forall h, no_attrs (attrs_of h) = head_plain h.
+Proof. intros [[c|] [|] n]; reflexivity. Qed.
+
+Lemma r_forbidden_class : forall l e, find_map r_item_forbidden l = Some e -> err_class e = ov_forbidden.
+Proof.
+  induction l as [|i t IH]; cbn; intros e H; [discriminate|].
+  destruct i; cbn in H; try (inversion H; subst; reflexivity); apply IH; assumption.
+Qed.
+
+Lemma c_forbidden_class : forall l e, find_map c_item_forbidden l = Some e -> err_class e = ov_forbidden.
+Proof.
+  induction l as [|i t IH]; cbn; intros e H; [discriminate|].
+  destruct i; cbn in H; try (inversion H; subst; reflexivity); apply IH; assumption.
+Qed.
+
+Lemma r_forbidden_canon : forall r,
+  is_none (find_map r_item_forbidden (register_items r)) =
+  is_none (ar_byte_order r) && is_none (ar_bit_order r) && is_none (ar_size_bits r) && is_none (ar_allow_bit_overlap r).
+Proof.
+  intros [a b c d e f g h i fs ord]. unfold register_items.
+  cbn [ar_access ar_byte_order ar_bit_order ar_address ar_size_bits ar_reset ar_repeat ar_allow_bit_overlap
+       ar_allow_address_overlap].
+  destruct a, b, c, d, e, f as [[?|?]|], g, h, i; reflexivity.
+Qed.
+
+Lemma c_forbidden_canon : forall c,
+  is_none (find_map c_item_forbidden (command_items c)) =
+  is_none (ak_byte_order c) && is_none (ak_bit_order c) && is_none (ak_size_in c) && is_none (ak_size_out c)
+  && is_none (ak_allow_bit_overlap c).
+Proof.
+  intros [a b c d e f g h fi fo ord ba br]. unfold command_items.
+  cbn [ak_byte_order ak_bit_order ak_address ak_size_in ak_size_out ak_repeat ak_allow_bit_overlap
+       ak_allow_address_overlap].
+  destruct a, b, c, d, e, f, g, h; reflexivity.
+Qed.
+
+Lemma is_none_find_map_reorder : forall {A B} (p : A -> option B) keys l,
+  is_none (find_map p (reorder keys l)) = is_none (find_map p l).
+Proof.
+  intros. destruct (find_map p l) eqn:E.
+  - destruct (find_map p (reorder keys l)) eqn:E'; [reflexivity|].
+    apply (find_map_perm_none p _ l (Permutation_sym (reorder_perm keys l))) in E'. congruence.
+  - rewrite (find_map_perm_none p l _ (reorder_perm keys l) E). reflexivity.
+Qed.
+
+Lemma map_nil_iff : forall {A B} (f : A -> B) l,
+  match map f l with [] => true | _ => false end = match l with [] => true | _ => false end.
+Proof. intros A B f [|a t]; reflexivity. Qed.
+
+Lemma dsl_ov_spec : forall name ov,
+  object_ok ov = true -> class_of (dsl_ov name (obj_to_dsl true ov)) = class_of (spec_override ov).
+Proof.
+  intros name [h off rep order objs|h r|h c|h b|h ov'] Hok; cbn [obj_to_dsl dsl_ov spec_override]; try reflexivity.
+  - (* block *)
+    cbn [object_ok] in Hok. apply andb_prop in Hok. destruct Hok as [Hok _]. apply andb_prop in Hok. destruct Hok as [Ho Hr].
+    unfold dsl_block_override. rewrite no_attrs_head.
+    destruct (head_plain h); cbn [negb andb]; [|reflexivity].
+    destruct objs as [|o t]; cbn [map]; [|reflexivity].
+    rewrite (find_map_reorder bkind pick_b_offset 0%nat _ _ (block_items_nodup off rep)) by kind_side.
+    rewrite (find_map_reorder bkind pick_b_repeat 1%nat _ _ (block_items_nodup off rep)) by kind_side.
+    assert (P1 : find_map pick_b_offset (block_items off rep) = off) by (destruct off, rep; reflexivity).
+    assert (P2 : find_map pick_b_repeat (block_items off rep) = rep) by (destruct off, rep; reflexivity).
+    rewrite P1, P2, dsl_opt_i64_ok by assumption. cbn [rbind].
+    rewrite dsl_opt_repeat_ok by assumption. reflexivity.
+  - (* register *)
+    cbn [object_ok] in Hok. unfold register_ok in Hok. repeat (apply andb_prop in Hok; destruct Hok as [Hok ?]).
+    unfold dsl_register_override. rewrite no_attrs_head.
+    destruct (head_plain h); cbn [negb andb]; [|reflexivity].
+    pose proof (map_nil_iff field_to_dsl (ar_fields r)) as Hm.
+    destruct (map field_to_dsl (ar_fields r)) as [|f0 ft]; destruct (ar_fields r) as [|g0 gt]; try discriminate;
+      cbn [andb]; [|reflexivity].
+    pose proof (is_none_find_map_reorder r_item_forbidden (ar_order r) (register_items r)) as Hf.
+    rewrite r_forbidden_canon in Hf.
+    destruct (find_map r_item_forbidden (reorder (ar_order r) (register_items r))) as [e|] eqn:Ee.
+    + cbn [is_none] in Hf. rewrite <- Hf. cbn [class_of]. rewrite (r_forbidden_class _ _ Ee). reflexivity.
+    + cbn [is_none] in Hf. rewrite <- Hf.
+      reorder_r r.
+      destruct (register_picks r) as (P1 & P2 & P3 & P4 & P5 & P6 & P7 & P8 & P9).
+      rewrite P1, P4, P6, P7, P9.
+      rewrite dsl_opt_i64_ok by assumption. cbn [rbind].
+      rewrite reset_pick_ok by assumption. cbn [rbind].
+      rewrite dsl_opt_repeat_ok by assumption. reflexivity.
+  - (* command *)
+    cbn [object_ok] in Hok. unfold command_ok in Hok. repeat (apply andb_prop in Hok; destruct Hok as [Hok ?]).
+    unfold dsl_command_override, command_to_dsl. cbn [orb]. rewrite no_attrs_head.
+    destruct (head_plain h); cbn [negb andb]; [|reflexivity].
+    destruct (ak_fields_in c) as [fi|]; cbn [option_map is_none andb]; [reflexivity|].
+    destruct (ak_fields_out c) as [fo|]; cbn [option_map is_none andb]; [reflexivity|].
+    pose proof (is_none_find_map_reorder c_item_forbidden (ak_order c) (command_items c)) as Hf.
+    rewrite c_forbidden_canon in Hf.
+    destruct (find_map c_item_forbidden (reorder (ak_order c) (command_items c))) as [e|] eqn:Ee.
+    + cbn [is_none] in Hf. rewrite <- Hf. cbn [class_of]. rewrite (c_forbidden_class _ _ Ee). reflexivity.
+    + cbn [is_none] in Hf. rewrite <- Hf.
+      reorder_c c.
+      destruct (command_picks c) as (P1 & P2 & P3 & P4 & P5 & P6 & P7 & P8).
+      rewrite P3, P6, P8.
+      rewrite dsl_opt_i64_ok by assumption. cbn [rbind].
+      rewrite dsl_opt_repeat_ok by assumption. reflexivity.
+Qed.
+
+(* ---- induction over the nested object tree ---- *)
+
+Section AobjectInd.
+  Variable P : aobject -> Prop.
+  Hypothesis Hblock : forall h off rep order objs, Forall P objs -> P (ABlock h off rep order objs).
+  Hypothesis Hreg : forall h r, P (ARegister h r).
+  Hypothesis Hcmd : forall h c, P (ACommand h c).
+  Hypothesis Hbuf : forall h b, P (ABuffer h b).
+  Hypothesis Href : forall h ov, P ov -> P (ARef h ov).
+
+  Fixpoint aobject_ind' (o : aobject) : P o :=
+    match o with
+    | ABlock h off rep order objs =>
+        Hblock h off rep order objs
+          ((fix go (l : list aobject) : Forall P l :=
+              match l with
+              | [] => Forall_nil P
+              | x :: t => Forall_cons x (aobject_ind' x) (go t)
+              end) objs)
+    | ARegister h r => Hreg h r
+    | ACommand h c => Hcmd h c
+    | ABuffer h b => Hbuf h b
+    | ARef h ov => Href h ov (aobject_ind' ov)
+    end.
+End AobjectInd.
+
+Lemma class_rmap : forall {A B} (f : A -> B) (x y : result A),
+  class_of x = class_of y -> class_of (rmap f x) = class_of (rmap f y).
+Proof. intros A B f [a|e] [b|e'] H; cbn in *; try discriminate; inversion H; reflexivity. Qed.
+
+Lemma dsl_object_spec : forall g o,
+  object_ok o = true -> class_of (dsl_object g (obj_to_dsl false o)) = class_of (spec_object g o).
+Proof.
+  intros g. induction o as [h off rep order objs IH|h r|h c|h b|h ov _] using aobject_ind'; intros Hok.
+  - cbn [object_ok] in Hok. apply andb_prop in Hok. destruct Hok as [Hok Hobjs].
+    apply andb_prop in Hok. destruct Hok as [Ho Hr].
+    cbn [obj_to_dsl dsl_object spec_object].
+    rewrite get_cfg_head. cbn [rbind].
+    rewrite (find_map_reorder bkind pick_b_offset 0%nat _ _ (block_items_nodup off rep)) by kind_side.
+    rewrite (find_map_reorder bkind pick_b_repeat 1%nat _ _ (block_items_nodup off rep)) by kind_side.
+    assert (P1 : find_map pick_b_offset (block_items off rep) = off) by (destruct off, rep; reflexivity).
+    assert (P2 : find_map pick_b_repeat (block_items off rep) = rep) by (destruct off, rep; reflexivity).
+    rewrite P1, P2.
+    assert (Hoff : match off with Some z => parse_lit in_i64 z | None => ROk 0 end = ROk (or_default off 0)).
+    { destruct off as [z|]; [cbn in Ho; rewrite (parse_lit_ok _ _ Ho)|]; reflexivity. }
+    rewrite Hoff. cbn [rbind]. rewrite dsl_opt_repeat_ok by assumption. cbn [rbind].
+    apply class_rbind; [|reflexivity].
+    rewrite mapR_map. apply class_mapR.
+    rewrite Forall_forall in *. intros x Hx. apply IH; [assumption|].
+    rewrite forallb_forall in Hobjs. apply Hobjs; assumption.
+  - cbn [obj_to_dsl dsl_object spec_object]. apply class_rmap. apply dsl_register_spec. exact Hok.
+  - cbn [obj_to_dsl dsl_object spec_object]. apply class_rmap. apply dsl_command_spec. exact Hok.
+  - cbn [obj_to_dsl dsl_object spec_object]. apply class_rmap. apply dsl_buffer_spec. exact Hok.
+  - cbn [obj_to_dsl spec_object]. rewrite dsl_object_ref, get_cfg_head. cbn [rbind].
+    apply class_rbind; [|reflexivity]. apply dsl_ov_spec. exact Hok.
+Qed.
+
+(* ---- global config (DSL) ---- *)
+
+Lemma config_counts : forall lf c k, Nat.ltb 1 (count_kind k (config_to_dsl lf c)) = false.
+Proof.
+  intros lf [a1 a2 a3 a4 a5 a6 a7 a8 a9 a10] k. unfold config_to_dsl.
+  cbn [ac_default_register_access ac_default_field_access ac_default_buffer_access ac_default_byte_order
+       ac_default_bit_order ac_register_address_type ac_command_address_type ac_buffer_address_type
+       ac_name_word_boundaries ac_defmt_feature].
+  destruct a1, a2, a3, a4, a5, a6, a7, a8, a9, a10;
+    do 11 (destruct k as [|k]; [reflexivity|]); reflexivity.
+Qed.
+
+Lemma seg_cfg : forall {A} all (ctor : A -> hconfig_item) (set : A -> config -> config) x g,
+  (forall v g', dsl_config_step all (ctor v) g' = ROk (set v g')) ->
+  foldM (dsl_config_step all) (opt_item ctor x) g = ROk (match x with Some v => set v g | None => g end).
+Proof. intros A all ctor set [v|] g H; cbn; [rewrite H|]; reflexivity. Qed.
+
+Lemma integer_of_show : forall i, integer_of_name (show_integer i) = Some i.
+Proof. destruct i; reflexivity. Qed.
+
+Lemma dsl_config_spec : forall lf c, dsl_config (config_to_dsl lf c) = ROk (spec_config lf c).
+Proof.
+  intros lf c. unfold dsl_config.
+  pose proof (config_counts lf c) as H.
+  set (all := config_to_dsl lf c) in *. unfold config_to_dsl.
+  assert (St : forall (i : hconfig_item) g r,
+             match i with
+             | GCDefaultRegisterAccess a => ROk (set_g_dra a g)
+             | GCDefaultFieldAccess a => ROk (set_g_dfa a g)
+             | GCDefaultBufferAccess a => ROk (set_g_dba a g)
+             | GCDefaultByteOrder b => ROk (set_g_byo (Some b) g)
+             | GCDefaultBitOrder b => ROk (set_g_bio b g)
+             | GCRegisterAddressType s => i <-- dsl_integer s ;; ROk (set_g_rat (Some i) g)
+             | GCCommandAddressType s => i <-- dsl_integer s ;; ROk (set_g_cat (Some i) g)
+             | GCBufferAddressType s => i <-- dsl_integer s ;; ROk (set_g_bat (Some i) g)
+             | GCNameWordBoundaries l => ROk (set_g_nwb l g)
+             | GCDefmtFeature s => ROk (set_g_defmt (Some s) g)
+             end = r -> dsl_config_step all i g = r).
+  { intros i g r Hr. unfold dsl_config_step. rewrite H. exact Hr. }
+  rewrite foldM_app, (seg_cfg all GCDefaultRegisterAccess set_g_dra) by (intros; apply St; reflexivity). cbn [rbind].
+  rewrite foldM_app, (seg_cfg all GCDefaultFieldAccess set_g_dfa) by (intros; apply St; reflexivity). cbn [rbind].
+  rewrite foldM_app, (seg_cfg all GCDefaultBufferAccess set_g_dba) by (intros; apply St; reflexivity). cbn [rbind].
+  rewrite foldM_app, (seg_cfg all GCDefaultByteOrder (fun b => set_g_byo (Some b))) by (intros; apply St; reflexivity).
+  cbn [rbind].
+  rewrite foldM_app, (seg_cfg all GCDefaultBitOrder set_g_bio) by (intros; apply St; reflexivity). cbn [rbind].
+  rewrite foldM_app, (seg_cfg all (fun i => GCRegisterAddressType (show_integer i)) (fun i => set_g_rat (Some i)))
+    by (intros; apply St; unfold dsl_integer; rewrite integer_of_show; reflexivity). cbn [rbind].
+  rewrite foldM_app, (seg_cfg all (fun i => GCCommandAddressType (show_integer i)) (fun i => set_g_cat (Some i)))
+    by (intros; apply St; unfold dsl_integer; rewrite integer_of_show; reflexivity). cbn [rbind].
+  rewrite foldM_app, (seg_cfg all (fun i => GCBufferAddressType (show_integer i)) (fun i => set_g_bat (Some i)))
+    by (intros; apply St; unfold dsl_integer; rewrite integer_of_show; reflexivity). cbn [rbind].
+  rewrite foldM_app,
+    (seg_cfg all (fun n => GCNameWordBoundaries (match n with NwbArray l => l | NwbString s => lf s end))
+             (fun n => set_g_nwb (match n with NwbArray l => l | NwbString s => lf s end)))
+    by (intros; apply St; reflexivity). cbn [rbind].
+  rewrite (seg_cfg all GCDefmtFeature (fun s => set_g_defmt (Some s))) by (intros; apply St; reflexivity).
+  f_equal. unfold spec_config.
+  destruct c as [a1 a2 a3 a4 a5 a6 a7 a8 a9 a10].
+  cbn [ac_default_register_access ac_default_field_access ac_default_buffer_access ac_default_byte_order
+       ac_default_bit_order ac_register_address_type ac_command_address_type ac_buffer_address_type
+       ac_name_word_boundaries ac_defmt_feature].
+  destruct a1, a2, a3, a4, a5, a6, a7, a8, a9 as [[?|?]|], a10; reflexivity.
+Qed.
+
+Theorem dsl_half : forall lf d,
+  forallb object_ok (a_objects d) = true ->
+  class_of (lower_dsl (to_dsl lf d)) = class_of (spec_device lf d).
+Proof.
+  intros lf d Hok. unfold lower_dsl, to_dsl, spec_device. cbn [hd_configs hd_objects].
+  rewrite dsl_config_spec. cbn [rbind].
+  apply class_rbind; [|reflexivity].
+  rewrite <- mapR_mapM, mapR_map. apply class_mapR.
+  rewrite Forall_forall. intros o Ho. apply dsl_object_spec.
+  rewrite forallb_forall in Hok. apply Hok; assumption.
+Qed.
